@@ -6,7 +6,7 @@ from plogio import *
 
 RULE = ("models from the structured generator (depth 0-3, all connectives, explicit signs, integer leaves, sharing), "
         "validated (errors()==[]); non-trivial = negate() takes the inward-push branch (positive node with a compound child); "
-        "distinct by canonical text of the model")
+        "distinct by canonical text of the model. Not(...): the constructor route, on compound models and on str / puan.variable atoms with boolean, integer and constant bounds (Not(atom) against All(atom)), with the constructor model Cons.build as correspondence")
 
 def gen_models(rng, n, res, depth_max=3):
     out = []
@@ -57,6 +57,52 @@ def oracle_one(res, ast, m, neg, rng, n_env, exhaustive_cap=0):
         return False
     return True
 
+def not_stream(res, tier, rng, models):
+    """Not(...) — the constructor route to negation: Not(model) for compound models, Not(atom) for str / puan.variable atoms
+    with boolean, integer (negative, positive lower bound) and constant bounds; Not(atom) is the complement of All(atom)"""
+    cases = []
+    def one(ast):
+        nast = {"k": "Not", "ch": [ast], "id": None}
+        orc = IdOracle()
+        try:
+            with orc:
+                m = build(ast)
+                orig = build({"k": "All", "ch": [ast], "id": None}) if is_var(m) or isinstance(m, str) else m
+                neg = build(nast)
+        except Exception as e:
+            res.count("not_build_error:" + type(e).__name__); return
+        if orig.errors() or neg.errors():
+            res.count("not_skipped_invalid"); return
+        res.count("Not_of_atom" if orig is not m else "Not_of_compound")
+        lv = leaves_of(orig)
+        envs = all_envs(lv, 300) or [random_env(lv, rng) for _ in range(10)]
+        for env in envs:
+            res.evaluations += 1
+            want = 1 - ref_eval(orig, env)
+            got = neg.evaluate(dict(env)).as_tuple()
+            if got != (want, want):
+                res.violation("oracle", f"Not(...) is not the complement: Not({m!r}) = {neg!r} evaluates to {got} at {env}, the original evaluates to {1 - want}",
+                              {"op": "Not", "model": ast_json(ast), "env": env, "required": want, "observed": list(got)})
+                break
+        cases.append((lambda it, nast=nast, neg=neg, orc=orc: f"({orc.term(it)}, {form_term(nast, it)}, {dump(neg, it)})", (nast,)))
+    atoms = [{"k": "str", "id": "s"}, {"k": "var", "id": "x", "b": [0, 1]}, {"k": "var", "id": "x", "b": [-2, 3]}, {"k": "var", "id": "y", "b": [1, 4]},
+             {"k": "var", "id": "z", "b": [2, 2]}, {"k": "var", "id": "w", "b": [-5, -1]}, {"k": "var", "id": "u", "b": [0, 0]}, {"k": "var", "id": "v", "b": [-32768, 32767]}]
+    for a in atoms:
+        one(a)
+    for _ in range(40 if tier == "quick" else 400):
+        lo = rng.randint(-6, 6); hi = lo + rng.randint(0, 6)
+        one({"k": "var", "id": rng.choice(["a", "q", "Z9", "é"]), "b": [lo, hi]})
+    for ast, m, neg, orc in models[: (150 if tier == "quick" else 1500)]:
+        one(ast)
+    n, failing, errs = run_case_shards("C05", "notbuild", "", "idtable * form * prop", "check_build", cases, imports="Puan.Plog Puan.Sem Puan.Corr Puan.Cons Puan.CorrCons")
+    res.corr_cases += n; res.evaluations += n
+    for e in errs:
+        res.violation("corr", "correspondence shard failed: " + e, {"check": "CorrCons.check_build", "error": e})
+    for i in failing[:10]:
+        (nast,) = cases[i][1]
+        res.violation("corr", f"constructor model of Not differs from the implementation on {json.dumps(ast_json(nast))[:300]}",
+                      {"check": "CorrCons.check_build", "model": ast_json(nast), "failing_input_found": False})
+
 def run(res, tier, seed):
     rng = random.Random(seed * 1000003 + 5)
     res.rule = RULE
@@ -85,6 +131,7 @@ def run(res, tier, seed):
     # direct oracle on every model; escalate around disagreements
     for ast, m, neg, orc in models:
         oracle_one(res, ast, m, neg, rng, 8 if tier == "quick" else 20, exhaustive_cap=0 if tier == "quick" else 600)
+    not_stream(res, tier, rng, models)
     for i in failing[:10]:
         ast, m, neg = cases[i][1]
         found = not oracle_one(res, ast, m, neg, rng, 2000, exhaustive_cap=20000)
@@ -93,6 +140,11 @@ def run(res, tier, seed):
 
 def replay(payload):
     r = payload.get("replay", payload)
+    if r.get("op") == "Not":
+        neg = build({"k": "Not", "ch": [r["model"]], "id": None})
+        got = neg.evaluate(dict(r["env"])).as_tuple()
+        print("Not of", json.dumps(r["model"])[:300], "=", neg, "env", r["env"], "evaluates to", got, "required", r["required"])
+        return 0 if got == (r["required"], r["required"]) else 1
     m = build(r["model"])
     neg = m.negate()
     if "env" in r:
